@@ -1,6 +1,15 @@
 import Mp.Deps
 import Mp.DepsExact
-/-! C15 — a step sees only base paths and its transitive dependencies: property theorems. -/
+import Mp.CueDeps
+import Mp.FactChecks
+/-! C15 — property theorems (proved in the imported modules; statements are checked there, axioms audited here). -/
 #print axioms Deps.closure_sound
 #print axioms Deps.closure_complete
 #print axioms Deps.closure_exact
+#print axioms Mp.closure_bridge
+#print axioms Mp.closure_model_exact
+#print axioms Mp.blocked_iff
+#print axioms Mp.blocked_first_key_rejected
+#print axioms Mp.unblocked_first_key
+#print axioms Mp.FactChecks.closure_shape
+#print axioms Mp.FactChecks.base_paths
